@@ -23,6 +23,7 @@ From NB Require Import Diff.Wf Diff.StringProofs Diff.C01Proofs Gen.NbConfig.
 From NB Require Import Merge.MergeOnesidedList Merge.MergeListTotal Merge.MergeOnesidedObj.
 From NB Require Import Merge.MergeKeySym.
 From NB Require Import Merge.MergeDictSym.
+From NB Require Import Merge.MergeSymNeutral.
 Import ListNotations.
 
 Notation decide O cfg St H :=
@@ -237,6 +238,29 @@ Theorem merge_symmetric_objects_merged_partial : forall O cfg St H base dl dr D,
              /\ (Forall side_neutral D -> apply_decisions base D' = apply_decisions base D).
 Proof. exact (fun O cfg St H => decide_apply_objmeet_swap O cfg St H chunks_guard entry_eq_strict conflict_assert_strict). Qed.
 Print Assumptions merge_symmetric_objects_merged_partial.
+
+(* THE SYMMETRY CLAUSE IN FULL for these documents, following the generated source fact (no edit needed either way):
+   with agreement tested by JSON identity (entry_eq_strict = true: the source after the repair of
+   symmetry-merged-differs-by-json-type-only) the merge with the sides exchanged returns, has the same verdict and builds
+   the same merged document, with no side condition; were the fact false the statement is trivial and the refutation
+   below applies instead. *)
+Theorem merge_symmetric_objects_full_by_fact : forall O cfg St H,
+  symmetry_full_statement O cfg St H chunks_guard entry_eq_strict conflict_assert_strict.
+Proof. exact (fun O cfg St H => symmetry_full_by_fact O cfg St H chunks_guard entry_eq_strict conflict_assert_strict). Qed.
+Print Assumptions merge_symmetric_objects_full_by_fact.
+
+(* the same, spelled out under the fact as a premise *)
+Theorem merge_symmetric_objects_full : entry_eq_strict = true ->
+  forall O cfg St H base dl dr D, SortKey.st_table St = [] -> objmeet base dl dr ->
+    decide O cfg St H base dl dr = Ok D ->
+    exists D', decide O cfg St H base dr dl = Ok D'
+               /\ has_conflicted D' = has_conflicted D
+               /\ apply_decisions base D' = apply_decisions base D.
+Proof.
+  intros Hs O cfg St H. pose proof (symmetry_full_by_fact O cfg St H chunks_guard entry_eq_strict conflict_assert_strict) as F.
+  unfold symmetry_full_statement in F. rewrite Hs in F. rewrite Hs. exact F.
+Qed.
+Print Assumptions merge_symmetric_objects_full.
 
 (* one layer, with the recursive call abstract: for a key of an object that BOTH sides changed (steps (4)-(8) of
    _merge_dicts), given that the sub-merge the key makes is symmetric *)
